@@ -150,13 +150,17 @@ class Exec(Verifier):
         c = self.truth(self.ev(s.test))
         label = "assert %s" % ast.unparse(s.test)
         needs = None
+        aprops = ()
         if self.in_ghost and isinstance(s.msg, ast.Constant) and isinstance(s.msg.value, str):
             # `assert cond, 'name'` in ghost code: a named obligation; 'name | needs=a,b' restricts the labelled hypotheses
-            nm, _, rest = s.msg.value.partition("|")
-            label = "ghost assertion %s" % nm.strip()
-            if rest.strip().startswith("needs="):
-                needs = [x.strip() for x in rest.strip()[6:].split(",") if x.strip()]
-        self.oblige(label, "ghost" if self.in_ghost else "assert", c, text=ast.unparse(s.test), needs=needs)
+            parts_ = [x.strip() for x in s.msg.value.split("|")]
+            label = "ghost assertion %s" % parts_[0]
+            for opt in parts_[1:]:
+                if opt.startswith("needs="):
+                    needs = [x.strip() for x in opt[6:].split(",") if x.strip()]
+                elif opt.startswith("props="):
+                    aprops = tuple(x.strip() for x in opt[6:].split(",") if x.strip())
+        self.oblige(label, "ghost" if self.in_ghost else "assert", c, aprops, text=ast.unparse(s.test), needs=needs)
 
     def st_Return(self, s):
         v = self.ev(s.value) if s.value is not None else NONE_V
